@@ -27,22 +27,31 @@ fn victim() {
         let len = m["pages"].as_u64().unwrap() as usize * page;
         let kind = m["kind"].as_str().unwrap();
         let ptr = if kind == "anon" {
-            // Safety: plain anonymous private mapping
+            // An anonymous mapping between two inaccessible guard pages: the kernel merges adjacent anonymous
+            // mappings of equal protection into one region, which would move chunk boundaries and fetch caps.
+            // Safety: plain anonymous private mapping, then a protection change inside it
             unsafe {
-                libc::mmap(std::ptr::null_mut(), len, libc::PROT_READ | libc::PROT_WRITE,
-                           libc::MAP_PRIVATE | libc::MAP_ANONYMOUS, -1, 0)
+                let whole = libc::mmap(std::ptr::null_mut(), len + 2 * page, libc::PROT_NONE,
+                                       libc::MAP_PRIVATE | libc::MAP_ANONYMOUS, -1, 0);
+                assert!(whole != libc::MAP_FAILED);
+                let inner = whole.cast::<u8>().add(page).cast::<libc::c_void>();
+                assert!(libc::mprotect(inner, len, libc::PROT_READ | libc::PROT_WRITE) == 0);
+                inner
             }
         } else {
             let path = format!("{}/victim_{}_{}.bin", case["workdir"].as_str().unwrap(), std::process::id(), i);
+            // the mapping starts `foff` bytes into the file (a multiple of the page size); offsets of the case
+            // are relative to the mapping
+            let foff = m["foff_pages"].as_u64().unwrap_or(0) as usize * page;
             let flen = m["file_len"].as_u64().unwrap() as usize;
-            let mut content = vec![0u8; flen];
+            let mut content = vec![0u8; foff + flen];
             for (k, b) in content.iter_mut().enumerate() {
                 *b = (k % 251) as u8 | 0x80;
             }
             for o in m["disk_needles"].as_array().unwrap() {
                 let o = o.as_u64().unwrap() as usize;
                 if o + nd.len() <= flen {
-                    content[o..o + nd.len()].copy_from_slice(&nd);
+                    content[foff + o..foff + o + nd.len()].copy_from_slice(&nd);
                 }
             }
             std::fs::write(&path, &content).unwrap();
@@ -51,7 +60,8 @@ fn victim() {
             let flags = if kind == "file_shared" { libc::MAP_SHARED } else { libc::MAP_PRIVATE };
             // Safety: mapping a regular file we just created
             let p = unsafe {
-                libc::mmap(std::ptr::null_mut(), len, libc::PROT_READ | libc::PROT_WRITE, flags, f.as_raw_fd(), 0)
+                libc::mmap(std::ptr::null_mut(), len, libc::PROT_READ | libc::PROT_WRITE, flags, f.as_raw_fd(),
+                           foff as libc::off_t)
             };
             keep.push(f);
             p
